@@ -1670,6 +1670,12 @@ def run(ctx):
     from .c01 import run_r1 as c01_r1
     r19 = ctx.rule("C03-R19", "the parsers read the writers' output through look-ahead requests, not through whatever happens to be buffered (shared with C01-R1)", floor=25)
     c01_r1(ctx, r19)
+    # R20: the DIMACS writers emit clauses without knowing what the reader will be told; the reader may refuse only what a
+    # declared count or the literal type itself excludes - limits are installed exactly when the header asks, and the
+    # defaults (literal limit = the type's maximum, no clause limit, group limit usize::MAX) accept everything else (C06-R2)
+    from .c06 import run_r2 as c06_r2
+    r20 = ctx.rule("C03-R20", "DIMACS readers refuse only what a declared count or the literal type excludes: default limits accept everything the writers can emit (shared with C06-R2)", floor=20)
+    c06_r2(ctx, r20)
     from .c06 import run_r6 as c06_r6
     r13b = ctx.rule("C03-R13b", "the reader accepts every delta the writer can emit: a delta equal to its reference code (the constant 0 as a gate input) is not rejected (shared with C06-R6)", floor=1)
     c06_r6(ctx, r13b, inclusive_only=True)
